@@ -26,7 +26,9 @@ func (tb *tokenBucket) adjustOnFailure(statusCode int) {
 	// For server errors like 503 or 5xx, reduce the refill rate exponentially.
 	case statusCode >= 500:
 		tb.failureCount++
-		newRefillRate := max(tb.refillRate*math.Pow(0.5, float64(tb.failureCount)), minRefillRate)
+		// Never cut below minRefillRate, but never go above the configured rate either
+		// (a bucket configured slower than minRefillRate must not be sped up by an error).
+		newRefillRate := max(tb.refillRate*math.Pow(0.5, float64(tb.failureCount)), min(minRefillRate, tb.idealRate))
 		tb.refillRate = newRefillRate
 		tb.tokens = 0
 
